@@ -16,7 +16,7 @@ class ServerUnderTest:
     """one real server + a healthy client's long-lived persistent worker (plain and in a context)"""
 
     def __init__(self, sess):
-        from pyworkers.remote_server import spawn_server
+        from common import spawn_server
         from pyworkers.persistent_remote import PersistentRemoteWorker
         from pyworkers.remote_context import RemoteContext
         sess.write_conf(None)
@@ -102,7 +102,7 @@ def main(ctx: Ctx):
             keep += rng.sample(cuts, min(len(cuts), 110))
             faults = keep
         # ---- a server that has not served anybody yet: the faulty client is its very first one
-        from pyworkers.remote_server import spawn_server
+        from common import spawn_server
         for kind in ('worker', 'pworker'):
             stream = streams[kind]
             hdr = 4 + int.from_bytes(stream[:4], 'big')
